@@ -1,3 +1,4 @@
+import I18n.Generated.Polib4us
 import I18n.Model.Po
 import I18n.Driver.Util
 /- Driver for the PO loader model (`po <op> …`).  Not part of any proof.
@@ -150,6 +151,21 @@ def handle (op : String) (args : List String) : String :=
     showList ((setFlags ((splitOn ',' ((unhexChars text).drop 3)).map (strip env.isSpace))).map hexChars)
   | "preprocess", [text] =>
     showList ((preprocess (mkEnv []) (unhexChars text)).map hexChars)
+  -- `gunescape` / `gsetflags` / `gpreprocess`: the same over the functions REGENERATED from lib/polib4us.py (Generated.Polib4us,
+  -- tools/translate/polib4us2lean.py); `gpreprocess` runs the generator `Codecs.open` on a file that decodes to `text`
+  | "gunescape", [oracle, enc, text] =>
+    match I18n.Generated.Polib4us.polib_unescape (mkEnv (parseOracle oracle)) (unhexOpt enc) (unhexChars text) with
+    | .ok t => s!"ok {hexChars t}"
+    | .error _ => "err"
+  | "gsetflags", items =>
+    match I18n.Generated.Polib4us.set_flags (items.map unhexChars) with
+    | .ok fs => showList (fs.map hexChars)
+    | .error _ => "err"
+  | "gpreprocess", [text] =>
+    let env : Env := { mkEnv [] with asciiCompatible := fun _ => true, decode := fun _ _ => .text (unhexChars text) }
+    match I18n.Generated.Polib4us.Codecs_open env [] ['r', 't'] [] with
+    | .ok ls => showList (ls.map hexChars)
+    | .error _ => "err"
   | "detect", [oracle, file] =>
     s!"ok {hexBytes (detectEncoding (mkEnv (parseOracle oracle)) (unhexOpt file))}"
   | "load", [oracle, file] =>
